@@ -939,4 +939,34 @@ example : ∃ s, run ⟨false, 3, some 3, true, 3⟩ (init ⟨false, 3, some 3, 
     [.start 0, .start 1, .start 2, .chk 1 3, .acq 1, .tokOk 1, .chk 2 2, .acq 2, .tokOk 2, .discard 2, .rel 2 1, .chk 0 1] = some s ∧
     s.pcs[0]? = some .acquire ∧ s.ammoLeft ≠ some 0 ∧ 0 < s.left ⟨false, 3, some 3, true, 3⟩ 0 := by
   refine ⟨_, rfl, by decide, by decide, by decide⟩
+
+section LeafCallback
+open Pandora.Proofs.C03Leaf Pandora.Gen.Schedule Pandora.Bridge.C03DoAt
+
+/-- **the start of further instances is cut by the shared profile only when it is drained** — three regenerated pieces composed:
+the shared profile object is the regenerated leaf (`Gen.Schedule`), wrapped by the regenerated finish-callback wrapper
+(`Gen.InstLoop.callbackLeft` / `callbackNext`, core/coreutil/schedule.go; its callback is `instanceStartCancel`,
+`buildNewInstanceSchedule`), used by the pool model.  In every reachable state of the product, for every reading of the clock:
+what the wrapper hands to `IsFinished` / `Wait` is the leaf's own answer, unchanged, and it fires the callback exactly when the
+model's shared counter is 0 — never while a token is left, always when an instance is told "finished" -/
+theorem C03_leaf_callback_only_when_drained (c : Cfg) (p : Leaf) (hn : c.tokens = p.n.toNat) (es : List (Int × Ev)) (l : LSt)
+    (h : lrun c p (linit c p) es = some l) (now : Int) :
+    (∃ v, doAtSchedule_Left l.sh = .ok (v, l.sh) ∧ v = (l.pool.shared : Int) ∧
+      Pandora.Gen.InstLoop.callbackLeft v = (v, decide (l.pool.shared = 0))) ∧
+    (∃ tx ok d', doAtSchedule_Next now l.sh = .ok ((tx, ok), d') ∧ ok = decide (0 < l.pool.shared) ∧
+      Pandora.Gen.InstLoop.callbackNext ok = (ok, decide (l.pool.shared = 0))) := by
+  obtain ⟨_, ha⟩ := lrun_is_run hn h
+  constructor
+  · refine ⟨(tokensLeft l.sh : Int), left_eq l.sh, by rw [ha.shared], ?_⟩
+    rw [Pandora.Bridge.C03Start.callback_left _ (by omega), ha.shared]
+    congr 1
+    simp
+  · obtain ⟨tx, d', hnx, _⟩ := next_draws l.sh ha.shFlags now
+    refine ⟨tx, _, d', hnx, by rw [ha.shared], ?_⟩
+    rw [Pandora.Bridge.C03Start.callback_next, ha.shared]
+    congr 1
+    by_cases hz : tokensLeft l.sh = 0 <;> simp [hz]
+    omega
+
+end LeafCallback
 end Pandora.Props.C03
